@@ -7,10 +7,10 @@ rm -rf $W; mkdir -p /tmp/cm
 git -C /repo worktree add -q --detach $W HEAD || exit 3
 cd $W
 cp $SRC/demo.rs tests/zz_demo_$N.rs
-base=$(cargo test --offline --test zz_demo_$N 2>&1 | grep -E "^test result" | head -1)
+base=$(cargo test --offline --test zz_demo_$N 2>&1 | grep -a -E "^test result" | head -1)
 git apply $SRC/patch.diff || { echo "$N: PATCH DOES NOT APPLY"; cd /; git -C /repo worktree remove --force $W; exit 4; }
-mut=$(cargo test --offline --test zz_demo_$N 2>&1 | grep -E "^test result" | head -1)
+mut=$(cargo test --offline --test zz_demo_$N 2>&1 | grep -a -E "^test result" | head -1)
 rm tests/zz_demo_$N.rs
-suite=$(cargo test --offline 2>&1 | grep -E "^test result" | awk '{p+=$4; f+=$6} END {print "passed=" p " failed=" f}')
+suite=$(cargo test --offline 2>&1 | grep -a -E "^test result" | awk '{p+=$4; f+=$6} END {print "passed=" p " failed=" f}')
 echo "$N: baseline-demo[$base] mutant-demo[$mut] suite-with-mutant[$suite]"
 cd /; git -C /repo worktree remove --force $W
